@@ -13,7 +13,9 @@
 //!  4. `chain`            representative rules × proofs in the transaction zone (T) and/or in the zone of an
 //!                        intermediate component K1 (Q) × call paths (direct; via global K1; via K1 then global K2 —
 //!                        barrier; via K1's owned child object) × {method of C, assert in the last frame};
-//!  5. `caller`           global_caller / package_of_direct_caller rules × the caller relations.
+//!  5. `caller`           global_caller / package_of_direct_caller rules × the caller relations;
+//!  6. `simulate-signatures` representative rules + rules over a signature badge nobody signs with, previewed with
+//!                        "assume all signature proofs" (every proof under the signature resources is simulated).
 //!
 //! Reference: zones form a forest; a call creates a zone whose parent is the caller's zone iff the call stays in
 //! the same global context, and whose "global caller zone" is the caller's zone on a global context change
@@ -25,7 +27,6 @@
 use crate::probe::*;
 use mc_core::{par_for, Ctx, Level, Local};
 use mc_ledger::*;
-use radix_engine_interface::object_modules::role_assignment::*;
 use serde_json::{json, Map};
 use std::collections::BTreeSet;
 
@@ -44,13 +45,15 @@ struct ProofM {
 struct Vis {
     proofs: Vec<ProofM>,
     implicit: BTreeSet<NonFungibleGlobalId>,
+    /// resources under which every non-fungible proof is simulated (preview flag)
+    simulated: BTreeSet<ResourceAddress>,
 }
 
 fn atom_ok(v: &Vis, x: &ResourceOrNonFungible) -> bool {
     match x {
         ResourceOrNonFungible::Resource(r) => v.proofs.iter().any(|p| p.res == *r),
         ResourceOrNonFungible::NonFungible(g) => {
-            v.implicit.contains(g) || v.proofs.iter().any(|p| p.res == g.resource_address() && p.ids.contains(g.local_id()))
+            v.implicit.contains(g) || v.simulated.contains(&g.resource_address()) || v.proofs.iter().any(|p| p.res == g.resource_address() && p.ids.contains(g.local_id()))
         }
     }
 }
@@ -101,6 +104,8 @@ struct ZoneM {
     proofs: Vec<ProofM>,
     /// signature badges (root zone only)
     implicit: BTreeSet<NonFungibleGlobalId>,
+    /// "simulate every proof under these resources" (root zone only)
+    simulated: BTreeSet<ResourceAddress>,
     local_implicit: BTreeSet<NonFungibleGlobalId>,
     parent: Option<usize>,
     gc_zone: Option<usize>,
@@ -130,13 +135,14 @@ impl Zones {
             local.insert(b.clone());
         }
         local.insert(NonFungibleGlobalId::package_of_direct_caller_badge(caller.package));
-        self.0.push(ZoneM { proofs: vec![], implicit: BTreeSet::new(), local_implicit: local, parent, gc_zone, gc_badge });
+        self.0.push(ZoneM { proofs: vec![], implicit: BTreeSet::new(), simulated: BTreeSet::new(), local_implicit: local, parent, gc_zone, gc_badge });
         self.0.len() - 1
     }
     fn chain(&self, mut z: Option<usize>, v: &mut Vis) {
         while let Some(i) = z {
             v.proofs.extend(self.0[i].proofs.iter().cloned());
             v.implicit.extend(self.0[i].implicit.iter().cloned());
+            v.simulated.extend(self.0[i].simulated.iter().cloned());
             z = self.0[i].parent;
         }
     }
@@ -169,6 +175,7 @@ struct W08 {
     acct: ComponentAddress,
     g: ResourceAddress,
     nf: ResourceAddress,
+    pk_s: Secp256k1PublicKey,
     sig_s: NonFungibleGlobalId,
     sig_t: NonFungibleGlobalId,
     pkg_p: PackageAddress,
@@ -244,6 +251,7 @@ fn build_world(rep_rules_for_functions: &dyn Fn(&W08) -> Vec<AccessRule>) -> W08
         acct,
         g,
         nf,
+        pk_s,
         sig_s: NonFungibleGlobalId::from_public_key(&pk_s),
         sig_t: NonFungibleGlobalId::from_public_key(&pk_t),
         pkg_p,
@@ -464,19 +472,23 @@ enum Outcome {
 }
 
 fn classify(receipt: &TransactionReceipt, assert_entry: bool) -> Result<Outcome, String> {
+    use radix_engine::errors::{RuntimeError, SystemError, SystemModuleError};
+    use radix_engine::system::system_modules::auth::AuthError;
     if is_success(receipt) {
         return Ok(Outcome::Authorized);
     }
-    let t = failure_text(receipt);
-    if is_commit_failure(receipt) {
-        if assert_entry && t.contains("AssertAccessRuleFailed") {
-            return Ok(Outcome::Denied);
-        }
-        if !assert_entry && t.contains("AuthError(Unauthorized(") && (t.contains("ident: \"guarded") || t.contains("ident: \"guarded_fn\"")) {
-            return Ok(Outcome::Denied);
+    if let TransactionResult::Commit(c) = &receipt.result {
+        if let TransactionOutcome::Failure(e) = &c.outcome {
+            match e {
+                RuntimeError::SystemError(SystemError::AssertAccessRuleFailed) if assert_entry => return Ok(Outcome::Denied),
+                RuntimeError::SystemModuleError(SystemModuleError::AuthError(AuthError::Unauthorized(u))) if !assert_entry && u.fn_identifier.ident.starts_with("guarded") => {
+                    return Ok(Outcome::Denied)
+                }
+                _ => {}
+            }
         }
     }
-    Err(mc_core::truncate(&format!("{}: {t}", receipt_class(receipt)), 300))
+    Err(mc_core::truncate(&format!("{}: {}", receipt_class(receipt), failure_text(receipt)), 300))
 }
 
 fn judge(l: &mut Local, section: &str, rule: &AccessRule, vis: &Vis, got: Result<Outcome, String>, case: impl Fn() -> serde_json::Value) {
@@ -592,6 +604,8 @@ enum Work {
     TxZone { entry: Entry, rule: usize, fn_pkg: Option<usize> },
     /// section 4/5: one rule (index into the given list), all (path, check, T, Q) combinations
     Chain { rule: usize, caller_section: bool },
+    /// section 6: previews with "assume all signature proofs" (= simulate every proof under the signature resources)
+    Simulate { rule: usize },
 }
 
 #[derive(Clone, Copy, Debug, PartialEq, Eq, PartialOrd, Ord)]
@@ -748,6 +762,28 @@ pub fn run(ctx: Ctx) -> ! {
     for i in 0..callers.len() {
         work.push(Work::Chain { rule: i, caller_section: true });
     }
+    // rules for the simulation section: the representatives + rules over a signature badge nobody signs with
+    let mut sim_rules = reps.clone();
+    {
+        use ResourceOrNonFungible as X;
+        let t = X::NonFungible(w.sig_t.clone());
+        let s_ = X::NonFungible(w.sig_s.clone());
+        let n3 = X::NonFungible(NonFungibleGlobalId::new(w.nf, nfid(3)));
+        let rg = X::Resource(w.g);
+        for x in [
+            BasicRequirement::Require(t.clone()),
+            BasicRequirement::AllOf(vec![rg.clone(), t.clone()]),
+            BasicRequirement::AllOf(vec![t.clone(), n3.clone()]),
+            BasicRequirement::AnyOf(vec![n3.clone(), t.clone()]),
+            BasicRequirement::CountOf(2, vec![t.clone(), s_.clone(), n3.clone()]),
+            BasicRequirement::CountOf(3, vec![t.clone(), s_.clone(), n3.clone()]),
+        ] {
+            sim_rules.push(AccessRule::Protected(b(&x)));
+        }
+    }
+    for i in 0..sim_rules.len() {
+        work.push(Work::Simulate { rule: i });
+    }
 
     let replay_case = ctx.read_replay_case();
     if let Some(case) = &replay_case {
@@ -794,6 +830,36 @@ pub fn run(ctx: Ctx) -> ! {
                     judge(l, section, rule, &vis, got, || json!({"work": wi, "section": section, "rule": format!("{rule:?}"), "tx_zone": format!("{p:?}")}));
                 }
             }
+            Work::Simulate { rule } => {
+                let rule = &sim_rules[*rule];
+                set_role_r(&w, &mut sim, &probe, rule);
+                let flags = PreviewFlags { use_free_credit: true, assume_all_signature_proofs: true, skip_epoch_check: true, disable_auth: false };
+                for p in &placements {
+                    for assert in [false, true] {
+                        let m = with_tx_proofs(&w, p);
+                        let m = if assert {
+                            m.call_function(w.pkg_p, BP_A, "run", manifest_args!(script_bytes(&[Op::AssertRule(rule.clone())]), w.g, w.nf))
+                        } else {
+                            m.call_method(w.c, "guarded", manifest_args!(script_bytes(&[])))
+                        }
+                        .build();
+                        let mut root = tx_zone(&w, p);
+                        root.simulated.insert(SECP256K1_SIGNATURE_RESOURCE);
+                        root.simulated.insert(ED25519_SIGNATURE_RESOURCE);
+                        let mut zones = Zones(vec![root]);
+                        let zc = zones.call(0, &tx_processor_caller(), true);
+                        let vis = zones.visible(zc);
+                        let keys: Vec<PublicKey> = if p.contains(&Atom::Sig) { vec![PublicKey::Secp256k1(w.pk_s)] } else { vec![] };
+                        probe.take_log();
+                        let got = match mc_core::catch(|| sim.preview_manifest(m, keys, 0, flags.clone())) {
+                            Ok(r) => classify(&r, assert),
+                            Err(pn) => Err(format!("panic: {pn}")),
+                        };
+                        let sec = format!("simulate-signatures:{}", if assert { "assert" } else { "method" });
+                        judge(l, &sec, rule, &vis, got, || json!({"work": wi, "section": sec, "rule": format!("{rule:?}"), "tx_zone": format!("{p:?}"), "preview": "assume_all_signature_proofs"}));
+                    }
+                }
+            }
             Work::Chain { rule, caller_section } => {
                 let (section, rule) = if *caller_section { ("caller", &callers[*rule]) } else { ("chain", &reps[*rule]) };
                 set_role_r(&w, &mut sim, &probe, rule);
@@ -833,7 +899,7 @@ pub fn run(ctx: Ctx) -> ! {
     }
     let nontrivial: u64 = classes.iter().filter(|(k, _)| k.ends_with(":authorized")).map(|(_, n)| *n).sum();
     let mut cov = Map::new();
-    cov.insert("programs".into(), json!(all_rules.len() + reps.len() + callers.len()));
+    cov.insert("programs".into(), json!(all_rules.len() + reps.len() + callers.len() + sim_rules.len()));
     cov.insert("rules_primary".into(), json!(all_rules.len()));
     cov.insert("rules_representative".into(), json!(reps.len()));
     cov.insert("basic_requirements".into(), json!(alpha.basics.len()));
